@@ -69,7 +69,7 @@ VIAS = ["direct", "direct", "direct", "copy_update", "copy_update_one", "validat
 class C15:
     id = "C15"
     theorems = ["C15_roundtrip", "C15_reject", "C15_eq_pair", "C15_eq_equiv", "C15_eq_tuple", "C15_hash", "C15_lt_irrefl", "C15_lt_trans",
-                "C15_lt_trichotomy", "C15_ctx", "C15_triples_bytes"]
+                "C15_lt_trichotomy", "C15_ctx", "C15_triples_bytes", "C15_from_reference"]
     lean_modules = ["CuriesVerif.Properties.C15", "CuriesVerif.Properties.Bytes"]
     rule = ("one case = 4 references drawn from ReferenceTuple / Reference / NamableReference / NamedReference over a small "
             "pool of prefixes (no ':'), identifiers (empty, containing ':' / tab / quote / newline / carriage return, "
@@ -155,6 +155,16 @@ class C15:
             except Exception as e:  # noqa: BLE001
                 parsed.append({"e": classify(e)})
         out["parse"] = parsed
+        # from_reference of every pydantic reference into every pydantic class, with and without the converter
+        fr = []
+        for pz in self.fromref_plan(case):
+            o = objs[pz["src"]]
+            try:
+                got = cls[pz["c"]].from_reference(o, **({"converter": conv} if pz["conv"] else {}))
+                fr.append({"p": cps(got.prefix), "i": cps(got.identifier), "n": None if getattr(got, "name", None) is None else cps(got.name)})
+            except Exception as e:  # noqa: BLE001
+                fr.append({"e": classify(e)})
+        out["fromref"] = fr
         # from_reference: converting an existing reference object, with the converter as validation context, must
         # standardise / reject exactly like parsing its CURIE does -- whatever class the object already has
         known_ = {x: r_.prefix for r_ in conv.records for x in [r_.prefix] + list(r_.prefix_synonyms)}
@@ -230,8 +240,13 @@ class C15:
         out["_extra"] = extra
         return out
 
+    @staticmethod
+    def fromref_plan(case):
+        return [{"c": c, "src": k, "conv": cv} for k, r in enumerate(case["refs"]) if r["c"] != 0
+                for c in (1, 2, 3) for cv in (False, True)]
+
     def request(self, case, impl):
-        return {"k": "refs", "refs": [{"c": r["c"], "p": cps(r["p"]), "i": cps(r["i"]), "n": None if r["n"] is None else cps(r["n"])}
+        return {"k": "refs", "fromref": self.fromref_plan(case), "refs": [{"c": r["c"], "p": cps(r["p"]), "i": cps(r["i"]), "n": None if r["n"] is None else cps(r["n"])}
                                       for r in case["refs"]],
                 "parse": [{"c": p["c"], "s": cps(p["s"]), "n": None if p["n"] is None else cps(p["n"]), "conv": p["conv"]}
                           for p in case["parse"]],
@@ -252,6 +267,12 @@ class C15:
             if a2 != b2:
                 pz = case["parse"][i]
                 diffs.append({"step": i, "op": f"from_curie[{CLASSES[pz['c']]}]({pz['s']!r}, conv={pz['conv']})",
+                              "implementation": a, "model": b})
+        for pz, a, b in zip(self.fromref_plan(case), impl.get("fromref", []), resp.get("fromref", [])):
+            a2 = {"e": "lib" if a.get("e") in common.LIB_FAMILY else a["e"]} if "e" in a else a
+            b2 = {"e": "lib" if b.get("e") in common.LIB_FAMILY else b["e"]} if "e" in b else b
+            if a2 != b2:
+                diffs.append({"step": 0, "op": f"{CLASSES[pz['c']]}.from_reference(reference #{pz['src']}, converter={pz['conv']})",
                               "implementation": a, "model": b})
         return diffs + self.compare_triples(impl)
 
